@@ -22,6 +22,8 @@ from .. import common as C
 from . import _an
 
 PROP = "C07"
+# obligations of the properties this one is downstream of are obligations of this check too (vk.runner.collect_obligations)
+UPSTREAM = ["C05"]
 GEN_REGIONS = ["Attrs", "CoreKernels", "CudaKernels", "NumpyKernels"]
 THEOREMS = {
     # NumPy backend, translated from core.py each run: same estimator (hence same Hxy sign and value) as Numba/CUDA
